@@ -368,8 +368,8 @@ fn split_case(ctx: &Ctx, shard: usize, index: u64, rep: &mut Report) {
 }
 
 pub fn run(ctx: &Ctx) -> (Report, String) {
-    let per_shard = ctx.n(500, 24000);
-    let splits_per_shard = ctx.n(6, 320);
+    let per_shard = ctx.n(2000, 40000);
+    let splits_per_shard = ctx.n(16, 400);
     let reps = par_shards(64, ctx.threads, |s| {
         let mut rep = Report::new();
         for i in 0..per_shard {
@@ -383,7 +383,7 @@ pub fn run(ctx: &Ctx) -> (Report, String) {
     let mut rep = Report::merge_all(reps);
     if ctx.is_main() {
         let m = ctx.scale_pct;
-        rep.require("continuation_steps_compared", if ctx.tier == Tier::Thorough { 1_000_000 } else { 20_000 } * m / 100);
+        rep.require("continuation_steps_compared", if ctx.tier == Tier::Thorough { 1_500_000 } else { 80_000 } * m / 100);
         for k in ["depth=header", "depth=truncation", "depth=macroblock-header", "depth=block-data", "depth=prediction", "shared_reader_position_checks", "split:retried-ok", "split_pictures"] {
             rep.require(k, 100 * m / 100);
         }
